@@ -3,7 +3,7 @@ from .common import *
 
 RULE = ("the harness (and the library under it) is rebuilt under several build configurations (level count, per-level maximum heights, per-level minimum Winternitz "
         "parameters); for parameter lists inside the limits keygen / sign / verify / lifetime must give the same bytes as the default build and the key must be fully usable; "
-        "lists just outside each limit must be refused with an error; the generated constants must equal the model's Config capacities")
+        "lists just outside each limit must be refused with an error; the generated constants must equal the model's Config capacities; default-build signatures of keys beyond each configuration (more levels, smaller W, taller trees) verified by the constrained build")
 ASSUMPTIONS = ["configurations are chosen so that trees stay affordable (heights 5/10 as maxima, lists use H2/H5)",
                "the default build is the reference for 'same bytes'"]
 
@@ -69,6 +69,14 @@ def run(ctx):
             ref[c.line] = a
             if not a.startswith("ok"):
                 ctx.fail("default build refuses a supported parameter list", [c.line], a[:100], "ok")
+        # signatures of keys beyond this configuration's limits, made by the default build: the constrained verifier must answer them
+        fcases = []
+        for (H, why, ps, seed) in outside:
+            if max(heights_of(ps)) <= 10:
+                fcases.append(Case(keygen_line(H, ps, seed), "default/keygen-beyond"))
+                fcases.append(Case(sign_line(H, sk_blob(H, ps, seed, 1), b"foreign"), "default/sign-beyond"))
+        for c, a, b in ctx.both(fcases, None):
+            ref[c.line] = a
     for cfg, inside, outside in plan:
         if not ctx.open(cfg):
             continue
@@ -99,4 +107,13 @@ def run(ctx):
         for c, a, b in ctx.both(cases, None):
             if not a.startswith("err") or ("cb=" in a and "cb=none" not in a):
                 ctx.fail("a parameter list beyond the configured limits was not refused with an error", [c.line, json.dumps(cfg)], a[:200], "err")
+        ver = []
+        for (H, why, ps, seed) in outside:
+            kg, sg = ref.get(keygen_line(H, ps, seed), ""), ref.get(sign_line(H, sk_blob(H, ps, seed, 1), b"foreign"), "")
+            if kg.startswith("ok") and sg.startswith("ok"):
+                for e in ("fn", "sig", "vsig"):
+                    ver.append(Case(verify_line(H, b"foreign", unhx(fields(sg)["sig"]), unhx(fields(kg)["vk"]), e), "outside/%s/verify-foreign-signature" % why))
+        for c, a, b in ctx.both(ver, None):
+            if a not in ("ok", "err"):
+                ctx.fail("a signature of a key beyond the configured limits was not answered with ok or an error", [c.line[:400], json.dumps(cfg)], a[:200], "ok or err")
     ctx.extra["configurations"] = [c for c, _, _ in plan]
